@@ -208,9 +208,9 @@ BUILT = {
  "C15": ("TLC explores the register-level transcription of the unranking generator exhaustively for every "
          "(n<=18/36, k<=4, index) and checks rank(out)=index, strict descent, range and agreement with the "
          "mathematical unranking; every explored point is replayed into get_combination_at_sorted_index; real calls in "
-         "the production regime (k=3 up to n=2343) and the DBAL call site are validated by TraceUnrank "
-         "(rank, successor, distinctness, completeness).",
-         "32-bit TLC integers bound the regime (n<=2343 for k=3); numpy Generator.choice(replace=False) is "
+         "the production regime (k=3 up to n=2343 with plain integers, up to n=6000 / C(n,3)=3.6e10 with two-limb arithmetic) and the DBAL "
+         "call site (also sub-sampled) are validated by TraceUnrank (rank, successor, distinctness, completeness).",
+         "32-bit TLC integers: two-limb arithmetic beyond 2^31; numpy Generator.choice(replace=False) is "
          "trusted to return distinct indices (the trace checks it anyway).",
          "TLA+ small-step transcription + TLC exhaustive; spec->code replay of all explored points; code->spec trace validation",
          "5/C15"),
